@@ -95,7 +95,10 @@ def check(ctx):
         shards('a', 3, ['--maxm', '5', '--ydist', 'bc', '--tdist', 'bc'], 60)
         shards('b', 2, ['--maxm', '4', '--ydist', ALLD, '--tdist', ALLD, '--skip', 'bc-to-bc,'], 60)
     else:
-        shards('a', 8, ['--maxm', '6', '--ydist', ALLD, '--tdist', ALLD, '--kq', '1,2'], 700)
+        # thorough box: every distribution pair with sizes <= 6x6; k-cyclic columns (kq 2 on either side) for 2DBC -> 2DBC with sizes <= 5x5
+        shards('a', 4, ['--maxm', '6', '--ydist', 'bc', '--tdist', 'bc'], 750)
+        shards('b', 4, ['--maxm', '6', '--ydist', ALLD, '--tdist', ALLD, '--skip', 'bc-to-bc,'], 750)
+        shards('c', 2, ['--maxm', '5', '--ydist', 'bc', '--tdist', 'bc', '--kq', '1,2', '--skip-k11'], 750)
     # ---- legs M: multi-rank, reduced boxes ----
     mjobs = []
     if quick:
